@@ -1,4 +1,4 @@
-INIT MCInit
+INIT Init
 NEXT Next
 CONSTANTS
   Emit = TRUE
